@@ -27,6 +27,9 @@ CONSTANTS
     NameClasses,     \* classes of storage names a key reference may carry
     JwkClasses,      \* caller supplied `jwk` header: <<class, key family>>, class in none | pub | priv | sym, every key family jwx knows
     MaxGen,          \* how often a key may be (re)created under the same key id
+    KeyFamilies,     \* families of keys the backends can hold (the node creates EC P-256 itself; others are imported:
+                     \* pre-populated backend + Link / Migrate)
+    DecryptFamilies, \* families Crypto.Decrypt supports (ECIES: EC); for every other family the operation must FAIL cleanly
     Backends,        \* storage backends behind the wrapper: fs | vault
     MaxOps,          \* bound on the number of operations of a behaviour
     Hist,
@@ -34,12 +37,14 @@ CONSTANTS
     PatternAdmitsDotDot,  \* the name pattern lets the name ".." (dots only) through
     RefusedSecretFamilies, \* key families whose PRIVATE / SYMMETRIC jwk header SignJWS refuses (prescriptive: all of them)
     StaleSignerCache,      \* the signer handed out for a kid is memoised and never invalidated
-    SigningKeyEchoed       \* a requested jwk header is filled with the SIGNING key pair instead of its public half
+    SigningKeyEchoed,      \* a requested jwk header is filled with the SIGNING key pair instead of its public half
+    ErrorCarriesKey        \* the error of an operation that fails for the key's family is formatted with the key itself
 
 CONSTANTS PatternOK(_),      \* the name class matches the wrapper's pattern
           Outside(_, _)      \* (backend, name class): the backend would address storage outside the namespace
 
-Channels == {"httpResponse", "jwsHeader", "token", "didDocument", "sqlRow", "auditLog", "log", "fileName"}
+\* errorText: the text of returned errors (and of panics); it travels on into API responses and into the callers' log lines
+Channels == {"httpResponse", "jwsHeader", "token", "didDocument", "sqlRow", "auditLog", "log", "fileName", "errorText"}
 Sec(k) == <<"sec", k>>
 Pub(k) == <<"pub", k>>
 Kid(k) == <<"kid", k>>
@@ -57,6 +62,7 @@ VARIABLES
     keys,      \* key material (<<kid, generation>>) that exists in the backend
     ref,       \* kid -> key material the key reference points at (Link may alias / re-link), or NoKey
     gen,       \* kid -> number of keys created under this kid so far
+    fam,       \* kid -> family of the key last created / imported under it
     gone,      \* kids whose key was deleted and not created again
     cache,     \* kid -> key material of the memoised signer (only used when StaleSignerCache), or NoKey
     alias,     \* name classes for which an (SQL) key reference exists
@@ -65,13 +71,14 @@ VARIABLES
     seen,      \* <<backend, name class>> pairs that reached a backend
     ops, hist
 
-vars == <<keys, ref, gen, gone, cache, alias, chan, sigs, seen, ops, hist>>
-view == <<keys, ref, gen, gone, cache, alias, chan, sigs, seen, ops>>
+vars == <<keys, ref, gen, fam, gone, cache, alias, chan, sigs, seen, ops, hist>>
+view == <<keys, ref, gen, fam, gone, cache, alias, chan, sigs, seen, ops>>
 Log(e) == hist' = IF Hist THEN Append(hist, e) ELSE hist
 
 Init ==
     /\ keys = {} /\ ref = [k \in Kids |-> NoKey] /\ alias = {}
     /\ gen = [k \in Kids |-> 0] /\ gone = {} /\ cache = [k \in Kids |-> NoKey]
+    /\ fam = [k \in Kids |-> "EC-P256"]
     /\ chan = [c \in Channels |-> {}]
     /\ sigs = {} /\ seen = {} /\ ops = 0 /\ hist = <<>>
 
@@ -90,10 +97,21 @@ New(k) ==
     /\ Step /\ ref[k] = NoKey /\ gen[k] < MaxGen
     /\ gen' = [gen EXCEPT ![k] = @ + 1]
     /\ keys' = keys \cup {<<k, gen[k] + 1>>} /\ ref' = [ref EXCEPT ![k] = <<k, gen[k] + 1>>]
-    /\ gone' = gone \ {k}
+    /\ gone' = gone \ {k} /\ fam' = [fam EXCEPT ![k] = "EC-P256"]
     /\ chan' = EmitAll([fileName |-> {Name(k)}, sqlRow |-> {Kid(k), Name(k)}, didDocument |-> {Pub(k), Kid(k)},
                         httpResponse |-> {Pub(k), Kid(k)}, jwsHeader |-> {Pub(k), Kid(k)}, auditLog |-> {Kid(k)}, log |-> {Kid(k)}])
     /\ Log([a |-> "New", k |-> k])
+    /\ UNCHANGED <<alias, sigs, seen, cache>>
+
+\* a key of family f that got into the backend from outside (imported PEM) and is registered by Link or by Migrate:
+\* the store holds it like any other key; no DID document knows it
+Import(k, f, via) ==
+    /\ Step /\ ref[k] = NoKey /\ gen[k] < MaxGen
+    /\ gen' = [gen EXCEPT ![k] = @ + 1]
+    /\ keys' = keys \cup {<<k, gen[k] + 1>>} /\ ref' = [ref EXCEPT ![k] = <<k, gen[k] + 1>>]
+    /\ gone' = gone \ {k} /\ fam' = [fam EXCEPT ![k] = f]
+    /\ chan' = EmitAll([fileName |-> {Name(k)}, sqlRow |-> {Kid(k), Name(k)}, log |-> {Kid(k)}])
+    /\ Log([a |-> "Import", k |-> k, fam |-> f, via |-> via])
     /\ UNCHANGED <<alias, sigs, seen, cache>>
 
 Signed(k) == {[kid |-> k, by |-> SignerFor(k), pub |-> ref[k]]}
@@ -103,7 +121,7 @@ SignJWT(k) ==
     /\ chan' = EmitAll([token |-> {Kid(k)}, jwsHeader |-> {Kid(k)}, httpResponse |-> {Kid(k)}, auditLog |-> {Kid(k)}])
     /\ sigs' = sigs \cup Signed(k)
     /\ Log([a |-> "SignJWT", k |-> k])
-    /\ Memoise(k) /\ UNCHANGED <<keys, ref, gen, gone, alias, seen>>
+    /\ Memoise(k) /\ UNCHANGED <<keys, ref, gen, fam, gone, alias, seen>>
 
 \* SignJWS with caller supplied headers; j = <<class, family>> of the jwk header.  A private or symmetric key in the
 \* header must be refused whatever its family: otherwise the produced JWS publishes it.
@@ -118,7 +136,7 @@ SignJWS(k, j) ==
                                 httpResponse |-> {Kid(k)}, auditLog |-> {Kid(k)}])
             /\ sigs' = sigs \cup Signed(k) /\ Memoise(k)
     /\ Log([a |-> "SignJWS", k |-> k, jwk |-> j[1] \o ":" \o j[2]])
-    /\ UNCHANGED <<keys, ref, gen, gone, alias, seen>>
+    /\ UNCHANGED <<keys, ref, gen, fam, gone, alias, seen>>
 
 \* DPoP proof: the public key travels in the jwk header
 SignDPoP(k) ==
@@ -126,7 +144,7 @@ SignDPoP(k) ==
     /\ chan' = EmitAll([jwsHeader |-> {Pub(k)}, token |-> {Kid(k)}, httpResponse |-> {Pub(k)}, auditLog |-> {Kid(k)}])
     /\ sigs' = sigs \cup Signed(k)
     /\ Log([a |-> "SignDPoP", k |-> k])
-    /\ Memoise(k) /\ UNCHANGED <<keys, ref, gen, gone, alias, seen>>
+    /\ Memoise(k) /\ UNCHANGED <<keys, ref, gen, fam, gone, alias, seen>>
 
 \* JSON-LD proof (credential issued by the subject of k): proof.verificationMethod names the kid
 SignLD(k) ==
@@ -134,7 +152,7 @@ SignLD(k) ==
     /\ chan' = EmitAll([httpResponse |-> {Kid(k)}, jwsHeader |-> {Kid(k)}, sqlRow |-> {Kid(k)}, auditLog |-> {Kid(k)}])
     /\ sigs' = sigs \cup Signed(k)
     /\ Log([a |-> "SignLD", k |-> k])
-    /\ Memoise(k) /\ UNCHANGED <<keys, ref, gen, gone, alias, seen>>
+    /\ Memoise(k) /\ UNCHANGED <<keys, ref, gen, fam, gone, alias, seen>>
 
 \* DAG transaction signed by k (DID document update of a did:nuts subject)
 SignTx(k) ==
@@ -142,26 +160,47 @@ SignTx(k) ==
     /\ chan' = EmitAll([jwsHeader |-> {Kid(k)}, httpResponse |-> {Kid(k), Pub(k)}, didDocument |-> {Pub(k), Kid(k)}, auditLog |-> {Kid(k)}])
     /\ sigs' = sigs \cup Signed(k)
     /\ Log([a |-> "SignTx", k |-> k])
-    /\ Memoise(k) /\ UNCHANGED <<keys, ref, gen, gone, alias, seen>>
+    /\ Memoise(k) /\ UNCHANGED <<keys, ref, gen, fam, gone, alias, seen>>
 
 \* JWE addressed to k, decrypted by key id: the plaintext (caller data) comes back, nothing of the key
+FamOfSigner(k) == fam[SignerFor(k)[1]]
+\* what a FAILING operation says about key k: the kid; with the deviation, the key itself (formatted into the error)
+Failure(k) == {Kid(k)} \cup (IF ErrorCarriesKey THEN {Sec(k)} ELSE {})
 Decrypt(k) ==
     /\ Step /\ CanSign(k)
-    /\ chan' = EmitAll([httpResponse |-> {Kid(k)}, auditLog |-> {Kid(k)}])
+    /\ chan' = IF FamOfSigner(k) \in DecryptFamilies
+               THEN EmitAll([httpResponse |-> {Kid(k)}, auditLog |-> {Kid(k)}])
+               ELSE \* "unsupported decryption key": returned to the caller, who logs it (network/dag EncryptedPAL.Decrypt)
+                    EmitAll([errorText |-> Failure(k), httpResponse |-> Failure(k), log |-> Failure(k)])
     /\ Log([a |-> "Decrypt", k |-> k])
-    /\ Memoise(k) /\ UNCHANGED <<keys, ref, gen, gone, alias, sigs, seen>>
+    /\ Memoise(k) /\ UNCHANGED <<keys, ref, gen, fam, gone, alias, sigs, seen>>
+
+\* Exists / EncryptJWE for the key's public half / DecryptJWE: nothing but the kid (or a failure naming the kid) comes out
+Exists(k) ==
+    /\ Step
+    /\ chan' = EmitAll([httpResponse |-> {Kid(k)}])
+    /\ Log([a |-> "Exists", k |-> k])
+    /\ UNCHANGED <<keys, ref, gen, fam, gone, cache, alias, sigs, seen>>
+
+JWE(k) ==
+    /\ Step /\ CanSign(k)
+    /\ chan' = IF FamOfSigner(k) \in DecryptFamilies
+               THEN EmitAll([httpResponse |-> {Kid(k)}, token |-> {Kid(k)}, auditLog |-> {Kid(k)}])
+               ELSE EmitAll([errorText |-> Failure(k), httpResponse |-> Failure(k), auditLog |-> {Kid(k)}])
+    /\ Log([a |-> "JWE", k |-> k])
+    /\ Memoise(k) /\ UNCHANGED <<keys, ref, gen, fam, gone, alias, sigs, seen>>
 
 Resolve(k) ==
     /\ Step /\ Usable(k)
     /\ chan' = EmitAll([httpResponse |-> {Pub(k), Kid(k)}, didDocument |-> {Pub(k), Kid(k)}])
     /\ Log([a |-> "Resolve", k |-> k])
-    /\ UNCHANGED <<keys, ref, gen, gone, cache, alias, sigs, seen>>
+    /\ UNCHANGED <<keys, ref, gen, fam, gone, cache, alias, sigs, seen>>
 
 List ==
     /\ Step
     /\ chan' = EmitAll([httpResponse |-> {Kid(m[1]) : m \in keys}, log |-> {Kid(m[1]) : m \in keys}])
     /\ Log([a |-> "List"])
-    /\ UNCHANGED <<keys, ref, gen, gone, cache, alias, sigs, seen>>
+    /\ UNCHANGED <<keys, ref, gen, fam, gone, cache, alias, sigs, seen>>
 
 \* Delete removes the key reference and the key material; every kid that pointed at it can no longer sign
 Delete(k) ==
@@ -171,7 +210,7 @@ Delete(k) ==
     /\ gone' = gone \cup {q \in Kids : ref[q] = ref[k]}
     /\ chan' = Emit("auditLog", {Kid(k)})
     /\ Log([a |-> "Delete", k |-> k])
-    /\ UNCHANGED <<gen, cache, alias, sigs, seen>>
+    /\ UNCHANGED <<gen, fam, cache, alias, sigs, seen>>
 
 \* a signature (or decryption) requested for a kid whose key was deleted: must fail with "private key not found"
 SignDeleted(k) ==
@@ -181,7 +220,7 @@ SignDeleted(k) ==
        ELSE UNCHANGED sigs
     /\ chan' = Emit("auditLog", {Kid(k)})
     /\ Log([a |-> "SignDeleted", k |-> k])
-    /\ UNCHANGED <<keys, ref, gen, gone, cache, alias, seen>>
+    /\ UNCHANGED <<keys, ref, gen, fam, gone, cache, alias, seen>>
 
 \* crypto.Link: a key reference row kid -> storage name of another existing key (new reference, or re-link of a used one)
 LinkKey(k, q) ==
@@ -189,14 +228,14 @@ LinkKey(k, q) ==
     /\ ref' = [ref EXCEPT ![k] = ref[q]] /\ gone' = gone \ {k}
     /\ chan' = Emit("sqlRow", {Kid(k), Name(q)})
     /\ Log([a |-> "LinkKey", k |-> k, to |-> q])
-    /\ UNCHANGED <<keys, gen, cache, alias, sigs, seen>>
+    /\ UNCHANGED <<keys, gen, fam, cache, alias, sigs, seen>>
 
 \* a key reference row whose storage name is of class nc (rows are storage: not trusted)
 LinkName(nc) ==
     /\ Step /\ nc \notin alias
     /\ alias' = alias \cup {nc}
     /\ Log([a |-> "LinkName", nc |-> nc])
-    /\ UNCHANGED <<keys, ref, gen, gone, cache, chan, sigs, seen>>
+    /\ UNCHANGED <<keys, ref, gen, fam, gone, cache, chan, sigs, seen>>
 
 Admitted(nc) == PatternOK(nc) \/ (PatternAdmitsDotDot /\ nc = "dotdot")
 \* using the reference (resolve / sign / decrypt / exists / delete): the wrapper validates, then the backend is addressed
@@ -204,10 +243,12 @@ UseName(b, nc) ==
     /\ Step /\ nc \in alias
     /\ seen' = IF Admitted(nc) THEN seen \cup {<<b, nc>>} ELSE seen
     /\ Log([a |-> "UseName", b |-> b, nc |-> nc])
-    /\ UNCHANGED <<keys, ref, gen, gone, cache, alias, chan, sigs>>
+    /\ UNCHANGED <<keys, ref, gen, fam, gone, cache, alias, chan, sigs>>
 
 Next ==
     \/ \E k \in Kids : New(k) \/ SignJWT(k) \/ SignDPoP(k) \/ SignLD(k) \/ SignTx(k) \/ Decrypt(k) \/ Resolve(k) \/ Delete(k) \/ SignDeleted(k)
+    \/ \E k \in Kids : Exists(k) \/ JWE(k)
+    \/ \E k \in Kids, f \in KeyFamilies, via \in {"link", "migrate"} : Import(k, f, via)
     \/ \E k \in Kids, j \in JwkClasses : SignJWS(k, j)
     \/ \E k, q \in Kids : LinkKey(k, q)
     \/ List
